@@ -289,7 +289,52 @@ func writeSize(cc *ssa.CallCommon) (ssax.Lin, bool) {
 	return ssax.Lin{}, false
 }
 
+// runR84err: the error frame. The function that writes an error reply's header stores constant lengths into the header
+// itself; they must equal what it writes after the header before flushing (nothing: an error reply has no body here).
+func runR84err(c *core.Ctx) {
+	ew := findFunc(c, "protocol/binprot", "writeErrorResponseHeader", roleErrorHeaderWriter)
+	key := "binprot.writeErrorResponseHeader#frame"
+	if ew == nil {
+		c.Undecided("R8.4", key, "-", "error header writer not found")
+		return
+	}
+	declared := map[string]int64{}
+	unknown := ""
+	written := int64(0)
+	ssax.Instrs(ew, func(ins ssa.Instruction) {
+		if st, ok := ins.(*ssa.Store); ok {
+			if f, ok := ssax.FieldName(st.Addr); ok && (f == "TotalBodyLength" || f == "KeyLength" || f == "ExtraLength") {
+				if k, isK := ssax.ConstInt(st.Val); isK {
+					declared[f] = k
+				} else {
+					unknown = f + " is not a constant"
+				}
+			}
+		}
+		if cc := ssax.CallOf(ins); cc != nil {
+			if sz, ok := writeSize(cc); ok {
+				if sz.IsConst() {
+					written += sz.Const
+				} else {
+					unknown = "a write of variable size at " + c.P.Pos(ins.Pos())
+				}
+			}
+		}
+	})
+	switch {
+	case unknown != "":
+		c.Undecided("R8.4", key, c.P.Pos(ew.Pos()), unknown)
+	case len(declared) < 3:
+		c.Undecided("R8.4", key, c.P.Pos(ew.Pos()), "the header's length fields are not all stored here")
+	default:
+		ok := declared["TotalBodyLength"] == written && declared["KeyLength"] == 0 && declared["ExtraLength"] == 0
+		c.Check(ok, "R8.4", key, c.P.Pos(ew.Pos()), fmt.Sprintf("declares total body %d, writes %d bytes after the header", declared["TotalBodyLength"], written),
+			fmt.Sprintf("the error reply declares total body %d, key %d, extras %d but %d bytes follow the header: the client waits for body bytes that never come (or reads the next reply as this one's body)", declared["TotalBodyLength"], declared["KeyLength"], declared["ExtraLength"], written))
+	}
+}
+
 func runR84(c *core.Ctx) {
+	runR84err(c)
 	hw := findFunc(c, "protocol/binprot", "writeSuccessResponseHeader", roleSuccessHeaderWriter)
 	if hw == nil {
 		c.Undecided("R8.4", "binprot.writeSuccessResponseHeader", "-", "header writer not found")
@@ -970,5 +1015,147 @@ func runR815(c *core.Ctx) {
 	}
 	if n == 0 {
 		c.Undecided("R8.15", "textprot#value-frame", "-", "no text responder found")
+	}
+}
+
+// ---------------------------------------------------------------- R8.16
+
+// runR816: every per-key response an orchestrator receives from a handler is dealt with before the next one is
+// received: forwarded to the responder (as it is, or rebuilt), or - an L1 miss in a two-tier get - queued for the
+// L2 request. "A get of n keys yields one value per hit plus one not-found per non-quiet miss": a response dropped
+// on the floor is a key the client never hears about.
+func runR816(c *core.Ctx) {
+	c.Rule("R8.16", "every per-key response received from a handler is forwarded to the responder or queued for the next tier before the next one is received", 6)
+	pv := &ssax.Prov{}
+	n := 0
+	for _, ctor := range []string{"L1Only", "L1L2", "L1L2Batch"} {
+		role, err := resolveOrca(c, ctor)
+		if err != nil {
+			c.Undecided("R8.16", "orcas."+ctor, "-", err.Error())
+			continue
+		}
+		for _, m := range []string{"Get", "GetE"} {
+			fn := c.P.Method(role.Impl, m)
+			if fn == nil || len(fn.Blocks) == 0 {
+				continue
+			}
+			loops := ssax.Loops(fn)
+			counts := map[string]int{}
+			ssax.Instrs(fn, func(ins ssa.Instruction) {
+				ex, ok := ins.(*ssa.Extract)
+				if !ok || !strings.HasSuffix(types.TypeString(ex.Type(), nil), "Response") {
+					return
+				}
+				var okIdx = -1
+				switch t := ex.Tuple.(type) {
+				case *ssa.Select:
+					okIdx = 1
+					_ = t
+				case *ssa.UnOp:
+					if t.Op == token.ARROW && t.CommaOk {
+						okIdx = 1
+					}
+				}
+				if okIdx < 0 {
+					return
+				}
+				l := ssax.InnermostLoop(loops, ex.Block())
+				if l == nil {
+					return
+				}
+				n++
+				key := ordinalKey(counts, core.FuncName(fn)+"#response-dealt-with")
+				// the local cells the received value is spilled to
+				cells := map[ssa.Value]bool{}
+				if ex.Referrers() != nil {
+					for _, r := range *ex.Referrers() {
+						if st, isSt := r.(*ssa.Store); isSt && st.Val == ssa.Value(ex) {
+							cells[st.Addr] = true
+						}
+					}
+				}
+				var derives func(v ssa.Value, d int) bool
+				derives = func(v ssa.Value, d int) bool {
+					if v == nil || d > 8 {
+						return false
+					}
+					if v == ssa.Value(ex) || cells[v] {
+						return true
+					}
+					switch x := v.(type) {
+					case *ssa.UnOp:
+						return derives(x.X, d+1)
+					case *ssa.FieldAddr:
+						return derives(x.X, d+1)
+					case *ssa.Field:
+						return derives(x.X, d+1)
+					case *ssa.Slice:
+						return derives(x.X, d+1)
+					case *ssa.MakeInterface:
+						return derives(x.X, d+1)
+					case *ssa.Alloc:
+						// a literal (or variadic array) some of whose parts derive from the response
+						if x.Referrers() != nil {
+							for _, r := range *x.Referrers() {
+								switch a := r.(type) {
+								case *ssa.FieldAddr:
+									for _, st := range ssax.StoresTo(a) {
+										if derives(st.Val, d+1) {
+											return true
+										}
+									}
+								case *ssa.IndexAddr:
+									for _, st := range ssax.StoresTo(a) {
+										if derives(st.Val, d+1) {
+											return true
+										}
+									}
+								}
+							}
+						}
+					}
+					return false
+				}
+				_ = pv
+				consumes := func(i ssa.Instruction) bool {
+					cc := ssax.CallOf(i)
+					if cc == nil {
+						return false
+					}
+					if cc.IsInvoke() && strings.HasSuffix(types.TypeString(cc.Value.Type(), nil), "protocol.Responder") {
+						for _, a := range cc.Args {
+							if derives(a, 0) {
+								return true
+							}
+						}
+					}
+					if b, isB := cc.Value.(*ssa.Builtin); isB && b.Name() == "append" && len(cc.Args) == 2 {
+						return derives(cc.Args[1], 0)
+					}
+					return false
+				}
+				hit, trail := (ssax.Reach{
+					Target: func(i ssa.Instruction) bool { return i.Block() == l.Header && ssax.IndexIn(i) == 0 },
+					Avoid:  consumes,
+					Within: l.Blocks,
+					AvoidEdge: func(from, to *ssa.BasicBlock) bool {
+						ifi, isIf := from.Instrs[len(from.Instrs)-1].(*ssa.If)
+						if !isIf {
+							return false
+						}
+						// the "channel closed" side of the receive's own ok
+						if okx, isEx := ifi.Cond.(*ssa.Extract); isEx && okx.Tuple == ex.Tuple && okx.Index == okIdx {
+							return to == from.Succs[1]
+						}
+						return false
+					},
+				}).From(ex)
+				c.Check(hit == nil, "R8.16", key, c.P.Pos(ex.Pos()), "forwarded to the responder or queued for the next tier on every path to the next receive",
+					"a response received from a handler can reach the next receive without having been forwarded or queued ("+strings.Join(ssax.BlockTrail(c.P.Fset, trail), " -> ")+"): the client gets no value / no not-found for that key")
+			})
+		}
+	}
+	if n == 0 {
+		c.Undecided("R8.16", "orcas#per-key-responses", "-", "no per-key response received in the in-scope orchestrators")
 	}
 }
